@@ -171,9 +171,9 @@ func helpCase(c *Ctx, si int, shape *tnode, assign []int, pol int, args []string
 	c.Count("nontrivial", 1)
 	c.Count(fmt.Sprintf("help_for_depth_%d", len(pathNodes(cur))-1), 1)
 	bad := ""
-	if !hasLine(o.Stderr, usageLine(cur, assign)) {
+	if !hasUsageOf(o.Stderr, cur) {
 		bad = "missing usage line `" + usageLine(cur, assign) + "`"
-	} else if !hasLine(o.Stderr, "LONG description of "+cur.path()) {
+	} else if !strings.Contains(o.Stderr, "LONG description of "+cur.path()) {
 		bad = "missing the long description of " + cur.path()
 	} else if strings.Contains(o.Stderr, "Error:") {
 		bad = "arguments were validated (an Error: line is printed)"
